@@ -67,6 +67,15 @@ theorem C03_java_document_represents (st : JavaStatus) : Represents (statusJson 
   cases sample <;> cases fav <;> cases pc <;> cases esc <;>
     exact ⟨rfl, rfl, rfl, rfl, by first | rfl | exact ⟨_, rfl, players _⟩, rfl, rfl, rfl, rfl⟩
 
+/-- In particular: a crate that parses `text` to the documented status document (the law `parseJson (render j) = some j`
+instantiated at the document a server renders) makes the Java query return the status exactly. -/
+theorem C03_java_canonical (ext : Ext) (st : JavaStatus) (text trailing : Bytes)
+    (hlaw : ext.parseJson text = some (statusJson st)) (hwf : wfJava st text = true)
+    (port retries : Nat) (rs : RequestSettings) (hh : rs.hostname.length < 2 ^ 31) :
+    (queryJava ext port rs retries (Net.init [.opened [.data (statusResponse text trailing)]] [])).1
+      = .ok (expectedJava ext st) :=
+  C03_java ext st text trailing _ hlaw (C03_java_document_represents st) hwf port retries rs hh
+
 /-- Auto-detect, over all 32 subsets of variants a server speaks (`w.java`, `w.bedrock`, `w.v16`, `w.v14`,
 `w.vb18` each present or absent) and every way the variants not spoken fail (`Mute`): the result is the
 expected response of the FIRST variant spoken in the order Java, Bedrock, 1.6, 1.4, beta 1.8, labelled with that
